@@ -23,8 +23,9 @@ DEFAULT = {"http": 80, "https": 443, "ws": 80, "wss": 443}
 SERVERS = [("h", "default"), ("h", 8080), ("h", 80), ("h", 443), ("10.0.0.1", 80), ("::1", 8000), ("h", 65535), ("h", 1),
            ("::ffff:192.0.2.1", 8000), ("64:ff9b::198.51.100.7", "default"), ("2001:db8:0:0:0:0:0:1", 8000), ("FE80::A", 8000)]  # IPv6 with a dotted IPv4 tail, in full form, in capitals
 HOSTS = [None, "x.org", "x.org:81", "[::1]:81", "x.org:65535", "[::1]:65535", "API.Example.ORG:8443", "[FE80::A]:81", "example.org.", "my_service:8000", "api_v2.internal.:81",
+         "b\xc3\xbccher.example", "caf\xe9.example:81",  # bytes above 0x7F in the Host field (the first one happens to be well-formed UTF-8): read the same way on both interfaces
          ""]  # (a Host field that is present and empty: what a client sends when its request target has no authority)
-ROOTS = ["", "/r", "/ré"]
+ROOTS = ["", "/r", "/ré", "/api/"]  # (a root path that ends in a slash is a root path like any other)
 PATHS = ["/", "/a b", "/é", "/a?b", "/a#b", "", "/a/b.c", "/r/users", "/r", "/ré/x", "//a/b", "//", "///a", "/a//b/"]
 QUERIES = [b"", b"a=1", b"a=%20&b", "name=café&q=日本".encode("utf-8"), b"l=\xe9"]  # the last two: raw UTF-8 and a raw Latin-1 byte, unescaped
 
@@ -268,7 +269,7 @@ def replacement(r, b, names):
             r.add("outcomes", tuple(names))
 
 
-QBASES = ["", "a=1", "a=1&a=2&b=3", "_=1700000000&a=1&a_=2&page_=1", "flag=&page=3", "a=%20&b", "b=2&a=1&b=4", "a=1&a=2&a=3&b=4", "a=1&b=2&a=3&a=4", "t=1%2B1&u=a+b&a=%2B", "k%2Bk=v&a=1"]
+QBASES = ["", "a=1", "a=1&a=2&b=3", "tags=x;y;z&page=2&a=1", "_=1700000000&a=1&a_=2&page_=1", "flag=&page=3", "a=%20&b", "b=2&a=1&b=4", "a=1&a=2&a=3&b=4", "a=1&b=2&a=3&a=4", "t=1%2B1&u=a+b&a=%2B", "k%2Bk=v&a=1"]
 
 
 def query_helpers(r):
